@@ -203,9 +203,11 @@ def indexed_contents_are_drawn_as_text_that_reads_back_or_refused(ctx, kind, siz
     back, text = draw_and_read(MAPS[kind], contents)
     want = dict(contents)
     everyLine = {text_line(kind, c, size) for c in contents} == set(lines)
-    if ctx.canary and len(contents) == len(cells):
-        # one input of the whole family: the complete lattice (no emptied line, no hole)
-        want[cells[1]] = "wrong"
+    # (canary: one input of the whole family, outside the recorded findings: the complete lattice -- no emptied line,
+    # no hole -- or, for a Cartesian lattice that reaches below index 0, exactly its cells without a negative index)
+    full = [c for c in cells if min(c) >= 0] if kind == "cartesian" else cells
+    if ctx.canary and sorted(contents) == sorted(full):
+        want[full[1]] = "wrong"
     if back is None:
         if kind == "hexFullFlatsUp":
             ctx.check("the complete lattice is drawn, not refused", len(contents) < len(cells))
@@ -377,7 +379,10 @@ def grid_blueprint_written_as_lattice_map_reloads_to_the_same_contents(ctx, kind
     ctx.check("saving writes the grid, as a lattice map or (when the map writer refuses) as explicit contents, "
               "without raising", True)
     got = _reload(saved, gb.name)
-    ctx.check("the original blueprint is not altered by saving", dict(gb.gridContents) == contents)
+    # (canary: `want` is wrong for one input; full-core Cartesian grids lie entirely inside a recorded finding about the
+    # two obligations below, so the deliberately wrong expectation is also put to this one)
+    ctx.check("the original blueprint is not altered by saving",
+              dict(gb.gridContents) == (want if ctx.canary and kind == "cartesianFull" else contents))
     ctx.check("the saved grid loads to exactly the cells it had", sorted(got) == sorted(want))
     ctx.check("... with each specifier at its own index", all(got.get(ij) == v for ij, v in want.items()))
 
